@@ -1,7 +1,7 @@
 (* C06 -- Killed text is never lost: yank restores it, kills accumulate, yank-pop rotates.
    Property theorems only. The ring (src/kill_ring.rs) is the DeleteListener of kill commands:
    a kill command's notifications are StartKill, Delete(idx, text, direction), StopKill (C04). *)
-From RL Require Import UData LineBuffer KillRing Editor EditorRun KillRingProofs.
+From RL Require Import UData LineBuffer KillRing Editor EditorRun KillRingProofs KillEditor.
 
 (* a kill that starts a run puts exactly the removed text in a fresh slot; the next yank returns it *)
 Theorem C06_kill_then_yank :
@@ -55,7 +55,7 @@ Theorem C06_reset_rule :
             /\ should_reset_kill_ring CYankPop = false
             /\ should_reset_kill_ring (CSelfInsert n 97) = true
             /\ should_reset_kill_ring (CMove MEndOfLine) = true.
-Proof. intros n. repeat split. Qed.
+Proof. exact reset_rule. Qed.
 Print Assumptions C06_reset_rule.
 
 (* yank inserts the text at the cursor; yank-pop replaces exactly the bytes the yank inserted ... *)
